@@ -2,6 +2,47 @@ package formula
 
 func init() {
 	vpHarnesses["VP_C01_bytes"] = VP_C01_bytes
+	vpHarnesses["VP_C01_lists"] = VP_C01_lists
+}
+
+// C01/lists: the list loops with full error recovery: a( t1..tK ) and [ t1..tK ]
+// over the tokens the loops distinguish, with symbolic line-break flags.
+func VP_C01_lists() {
+	K := vpParam("K")
+	alphabet := []SyntaxKind{SK_Identifier, SK_Comma, SK_Dot, SK_ExclamationDot, SK_OpenParen, SK_CloseParen, SK_CloseBracket, SK_NumberLiteral, SK_Plus, SK_DotDotDot}
+	t := &vpTokens{}
+	call := vpBool("call")
+	if call {
+		t.kinds = append(t.kinds, SK_Identifier, SK_OpenParen)
+		t.lb = append(t.lb, false, false)
+	} else {
+		t.kinds = append(t.kinds, SK_OpenBracket)
+		t.lb = append(t.lb, false)
+	}
+	for i := 0; i < K; i++ {
+		k := SyntaxKind(vpInt("k"))
+		ok := false
+		for _, a := range alphabet {
+			if k == a {
+				ok = true
+			}
+		}
+		vpAssume(ok)
+		t.kinds = append(t.kinds, k)
+		t.lb = append(t.lb, vpBool("lb"))
+	}
+	src, err := vpParseTokens(t, false)
+	if err != nil {
+		vpReach("C01/lists/rejected")
+		return
+	}
+	vpReach("C01/lists/accepted")
+	vpAssert("C01/lists/tree-present", src != nil && src.Expression != nil)
+	if src == nil {
+		return
+	}
+	vpAssert("C01/lists/no-diagnostics-without-error", len(src.Diagnostics) == 0)
+	vpAssert("C01/lists/complete", vpComplete(src.Expression, 0))
 }
 
 // vpComplete reports whether a tree returned without error is complete:
@@ -59,6 +100,9 @@ func VP_C01_bytes() {
 	L := vpParam("L")
 	text := vpBytes("t", L)
 	src, err := ParseSourceCode(text)
+	// exactly one of the two outcomes, on every call: a second parse of the same text agrees
+	_, err2 := ParseSourceCode(text)
+	vpAssert("C01/bytes/same-outcome-on-every-call", (err == nil) == (err2 == nil))
 	if err != nil {
 		vpReach("C01/bytes/rejected")
 		vpObserve("err", true)
